@@ -481,6 +481,9 @@ def r5_library(chk):
         init = prog.method(ci, "__init__")
         chk.require(init is not None and init.cls == ci, f"{cname}.__init__ vanished")
         chk.analysed(init)
+        from ..canon import ifchain
+
+        init = ifchain(init)  # this rule reads version dispatch as an if / elif chain
         def binds(body, path):
             """values stored into `path` anywhere in body (tuple unpacking of a tuple display is element-wise)"""
             out = []
